@@ -164,6 +164,10 @@ func timerTok(d time.Duration) int {
 
 // reporterCall is invoked by the recording reporters for every call they receive.
 func (r *coreRun) reporterCall(kind, name string, tags map[string]string, i int64, f float64, d time.Duration) {
+	plainTimer := kind == "ptimer"
+	if plainTimer {
+		kind = "timer"
+	}
 	if r.s != nil {
 		// every reporter call is its own action (a pass can be held inside a slow reporter); the step carries the
 		// delivered value in model units (step-level replay compares it with the model's)
@@ -198,7 +202,9 @@ func (r *coreRun) reporterCall(kind, name string, tags map[string]string, i int6
 	case "gauge":
 		r.log(M{"e": "dlv", "k": "gauge", "t": t, "id": renderID(name, tags), "v": r.gaugeTok(f), "own": own})
 	case "timer":
-		r.log(M{"e": "dlv", "k": "timer", "t": t, "id": renderID(name, tags), "v": timerTok(d)})
+		// wrongpath: "the cached path taking precedence over the plain path" - a root configured with both reporters
+		// forwards its timers through the cached handle
+		r.log(M{"e": "dlv", "k": "timer", "t": t, "id": renderID(name, tags), "v": timerTok(d), "wrongpath": plainTimer && r.sc.Reporter == "both"})
 	case "hist":
 		r.log(M{"e": "dlv", "k": "counter", "t": t, "id": renderID(name, tags) + fmt.Sprintf("[%v]", f), "v": i, "own": own})
 	case "flush":
@@ -257,7 +263,7 @@ func (p *coreReporter) ReportGauge(name string, tags map[string]string, v float6
 	p.r.reporterCall("gauge", name, tags, 0, v, 0)
 }
 func (p *coreReporter) ReportTimer(name string, tags map[string]string, d time.Duration) {
-	p.r.reporterCall("timer", name, tags, 0, 0, d)
+	p.r.reporterCall("ptimer", name, tags, 0, 0, d) // the plain reporter's ReportTimer
 }
 func (p *coreReporter) ReportHistogramValueSamples(name string, tags map[string]string, b tally.Buckets, lo, hi float64, n int64) {
 	p.r.reporterCall("hist", name, tags, n, hi, 0)
